@@ -71,6 +71,34 @@ func TestC18Copy(t *testing.T) {
 		useNew := rapid.IntRange(0, 5).Draw(t, "useNew") == 0
 		history := []string{}
 
+		// A struct may be wrapped while it is still empty and get its values
+		// through the caller's own pointer afterwards (here: through a second
+		// wrapper around the same pointer); the first wrapper never saw a Set.
+		if wrappedSrc && rapid.IntRange(0, 3).Draw(t, "filledBehind") == 0 {
+			wt := ts
+			wt.Struct = true
+			ptr := reflect.New(gen.BuildSchema([]gen.TypeSpec{wt}).Types[0].GoType)
+
+			if p := oracle.Try(func() {
+				first := jsonapi.Wrap(ptr.Interface())
+				second := jsonapi.Wrap(ptr.Interface())
+
+				for _, k := range gen.SortedKeys(vals) {
+					if ids, ok := vals[k].([]string); ok && len(ids) == 0 {
+						continue
+					}
+
+					second.Set(k, gen.Clone(vals[k]))
+				}
+
+				src = first
+			}); p != nil {
+				t.Fatalf("C18 violated: wrapping a struct twice %s\ntype: %s", p, ts)
+			}
+
+			history = append(history, "the source wraps a struct that was filled through another wrapper of the same pointer")
+		}
+
 		// A soft resource whose type came from BuildType (NewFunc is set) and
 		// was changed afterwards: New and Copy must still give a resource of
 		// the resource's own (changed) type.
